@@ -252,7 +252,7 @@ theorem declBinUntyped_ok_iff (word : Nat) (hw : word = 4 ∨ word = 8) (k : Kin
   · have hd' : op.isDiv = true ∧ y = 0 := by simpa using hd
     simp [hd', Verdict.bind]
   · have hd' : ¬(op.isDiv = true ∧ y = 0) := by simpa using hd
-    simp only [hd, Bool.false_eq_true, if_false, bind_ok, checkAssign]
+    simp only [hd, Bool.false_eq_true, if_false, bind_ok, checkAssign_def]
     by_cases hrep : representableConst word (exactBin op x y) k = true
     · have := hr.mp hrep
       simp [hrep, hd']
